@@ -603,7 +603,7 @@ func rewriteSpec(s string) (string, error) {
 			i = j
 			continue
 		}
-		if c == '(' && (word == "forall" || word == "exists") {
+		if c == '(' && (word == "forall" || word == "exists" || word == "forallq") {
 			args := splitTop(inner, ",")
 			if len(args) < 4 {
 				return "", fmt.Errorf("%s(i, lo, hi, body) expected in %q", word, s)
@@ -1112,7 +1112,13 @@ func (ex *Exec) evalSpecFunc(name string, call *ast.CallExpr, st *State) []Value
 			}
 		}
 		return []Value{ex.eval(call.Args[0], o)}
-	case "forall__", "exists__":
+	case "forall__", "exists__", "forallq__":
+		// forallq is forall that is never expanded into instances, whatever its bounds (frame-like clauses whose
+		// callers pass constant positions but whose goals range over symbolic lengths)
+		keepQuant := name == "forallq__"
+		if keepQuant {
+			name = "forall__"
+		}
 		lo := ex.eval(call.Args[0], st).scalar()
 		hi := ex.eval(call.Args[1], st).scalar()
 		lit := call.Args[2].(*ast.FuncLit)
@@ -1120,7 +1126,7 @@ func (ex *Exec) evalSpecFunc(name string, call *ast.CallExpr, st *State) []Value
 		pid := lit.Type.Params.List[0].Names[0]
 		obj := info.Defs[pid]
 		// constant small ranges are expanded (quantifier-free obligations)
-		if lo.isConst() && hi.isConst() && new(big.Int).Sub(hi.Val, lo.Val).Cmp(big.NewInt(64)) <= 0 {
+		if !keepQuant && lo.isConst() && hi.isConst() && new(big.Int).Sub(hi.Val, lo.Val).Cmp(big.NewInt(64)) <= 0 {
 			var parts []*Term
 			for k := new(big.Int).Set(lo.Val); k.Cmp(hi.Val) < 0; k = new(big.Int).Add(k, big.NewInt(1)) {
 				sub := st.clone()
@@ -1254,12 +1260,13 @@ func (ex *Exec) evalSpecFunc(name string, call *ast.CallExpr, st *State) []Value
 			unsupp("visited() outside a map range loop invariant")
 		}
 		return []Value{boolV(mkSelect(vv.scalar(), k))}
-	case "sealed":
-		_, ok := st.ghost["aead.seal.ad"]
-		return []Value{boolV(mkBool(ok))}
-	case "opened":
-		_, ok := st.ghost["aead.open.ad"]
-		return []Value{boolV(mkBool(ok))}
+	case "sealed", "opened":
+		// the last AEAD seal / open on this path happened and (open) returned no error
+		key := map[string]string{"sealed": "aead.seal.ok", "opened": "aead.open.ok"}[name]
+		if g, ok := st.ghost[key]; ok {
+			return []Value{boolV(g.scalar())}
+		}
+		return []Value{boolV(tFalse)}
 	case "lastSealAD", "lastSealPT", "lastOpenAD", "lastOpenNonce", "lastOpenCT":
 		key := map[string]string{"lastSealAD": "aead.seal.ad", "lastSealPT": "aead.seal.pt", "lastOpenAD": "aead.open.ad", "lastOpenNonce": "aead.open.nonce", "lastOpenCT": "aead.open.ct"}[name]
 		g, ok := st.ghost[key]
